@@ -24,7 +24,10 @@ EXPLANATION = (
     "equals the forward byte copy the formats define for overlapping matches. (6) the gzip bound is "
     "zlib's compressBound() plus the wrapper bytes, a guarantee stated for the default deflate "
     "parameters: deflateInit2 is called with memLevel >= 8 and a 32K window (the argument may be a "
-    "constant or a helper of the file whose every return value is enumerated). Decides these clauses, not "
+    "constant or a helper of the file whose every return value is enumerated); (7) every tag byte the "
+    "Snappy / LZ4 compressors build by OR-ing shifted fields holds each field inside its slot for every "
+    "value the branch conditions on the path admit (forward dataflow of constant upper bounds; a COPY_1 "
+    "element reached with offset 2048 would need a twelfth offset bit). Decides these clauses, not "
     "the round trip nor sufficiency of the bound formulas.")
 
 SN = "src/compression/snappy.c"
@@ -50,6 +53,10 @@ def run(ctx):
     ctx.clause("C09.3 match offsets fit the emitted offset width")
     ctx.clause("C09.4 reported sizes never exceed the capacity")
     ctx.clause("C09.5 block copies from the output history are no wider than the guarded match distance")
+    ctx.clause("C09.6 tag bytes of the hand-written compressors hold every field value their guards admit")
+    from ..rules import fieldfit
+    nff, nffd = fieldfit.check(ctx, P.funcs_in("src/compression/snappy.c", "src/compression/lz4.c"))
+    ctx.floor("C09 packed tag bytes decided", nffd, 5)
     for file_, fname, bound in ((SN, "carquet_snappy_compress", "carquet_snappy_compress_bound"),
                                 (LZ, "carquet_lz4_compress", "carquet_lz4_compress_bound")):
         f = P.fn(fname, file_)
